@@ -155,8 +155,8 @@ PROPS = {
         assumptions=["HTTP: the parser is net/http (library code); its malformed-input behaviour is not modelled"],
     ),
     "C02": dict(
-        proof_modules=["KsVerif.Proofs.C02", "KsVerif.Proofs.C02Redis", "KsVerif.Proofs.C02Amqp"],
-        families=["cost.redis", "cost.amqp", "cost.kafka", "cost.http", "redis.raw", "amqp.raw"],
+        proof_modules=["KsVerif.Proofs.C02", "KsVerif.Proofs.C02Redis", "KsVerif.Proofs.C02Amqp", "KsVerif.Proofs.C02Kafka"],
+        families=["cost.redis", "cost.amqp", "cost.kafka", "cost.http", "redis.raw", "amqp.raw", "kafka.layout"],
         rule="cost.<proto>: for each dissector, well-formed halves in which one length / count / size field (RESP *N and "
              "$N; AMQP frame, long-string, table, array, byte-array and body sizes; Kafka message size, client-id and "
              "string lengths, array count, and in a Produce v3 record batch the record count, record-set size, record header "
@@ -173,7 +173,7 @@ PROPS = {
              "and the later stages run under measurement (TotalAlloc, wall time) and a per-case kill timer; "
              "bound: alloc <= 4096 n + 512 KiB, time <= 2 s + n/100 ms, no panic, returns; redis.raw / amqp.raw: the "
              "models the theorems speak about (packets and array elements <= bytes; AMQP events <= bytes / 4, body bytes "
-             "reported <= bytes, fuel never decides) against the real readers on raw and mutated streams",
+             "reported <= bytes, fuel never decides; Kafka array elements <= bytes left in the message) against the real readers on raw and mutated streams / every layout row",
         trusted_base=REDIS_TB + ["Amqp/Model.lean + Amqp/Dissect.lean are a hand-written model of amqp/read.go and the Dissect loop "
                                  "of amqp/main.go; tied to the code by the correspondence check (frames, events, end kind)",
                                  "runtime.MemStats.TotalAlloc and wall-clock time as measured in the harness process"] + LIB,
